@@ -119,6 +119,22 @@ def cases(draw):
 
             p["actions"] = flat(p["actions"])
             p["goals"] = flat(p["goals"])
+        if g.b(0.25):
+            # data flow: a value computed by an interpreted function is stored in a fluent, copied on by another
+            # action (declared before or after the one that stores it) and needed by the goal
+            c1, k0, m = g.i(1, 3), g.i(0, 3), g.i(2, 4)
+            s0 = g.i(0, 2)
+            p["ifuns"].append({"name": "gflow", "params": [["int", None, None]], "fn": ["lin", [c1], k0, m], "ret": ["int", None, None], "offset": 0})
+            for n_, d_ in (("ifsrc", s0), ("ifmid", 0), ("ifdst", 0)):
+                p["fluents"].append({"name": n_, "type": ["int", 0, 5], "params": [], "default": ["i", d_]})
+            copy = {"name": "ifcopy", "params": [], "pre": [], "eff": [{"kind": "assign", "fl": ["fl", "ifdst"], "val": ["fl", "ifmid"], "cond": None, "forall": []}]}
+            store = {"name": "ifstore", "params": [], "pre": [], "eff": [{"kind": "assign", "fl": ["fl", "ifmid"], "val": ["ifn", "gflow", ["fl", "ifsrc"]], "cond": None, "forall": []}]}
+            if g.b(0.7):
+                p["actions"] = [copy] + p["actions"] + [store]
+            else:
+                p["actions"] = [store] + p["actions"] + [copy]
+            want = (c1 * s0 + k0) % m if g.b(0.75) else g.i(0, 3)
+            p["goals"] = p["goals"][: g.i(0, 1)] + [["=", ["fl", "ifdst"], ["i", want]]]
         return {"kind": "if", "problem": finite(p)}
     g = gen.Gen(draw, OS_PROF)
     p = g.problem()
